@@ -4,6 +4,7 @@ every `ValueFormat`) and the `name` table string encodings (length field vs. enc
 Models: Model/ValueRecord.lean, Model/NameStr.lean (each cites the Rust it transcribes).
 -/
 import FontVerif.Lemmas.ValueRecord
+import FontVerif.Lemmas.FieldVR
 import FontVerif.Lemmas.NameStr
 set_option linter.unusedVariables false
 
@@ -239,5 +240,45 @@ example : encodeString .utf16be [0x61, 0x1F600] = some [0, 0x61, 0xD8, 0x3D, 0xD
 example : encodeString .macRoman [0xC4, 0x2122] = some [0x80, 0xAA] ∧ computeLength .macRoman [0xC4, 0x2122] = some 2
     ∧ encodeString .macRoman [0x3A9, 0x4E00] = none ∧ Encoding.new 1 0 = .macRoman ∧ Encoding.new 3 10 = .utf16be
     ∧ Encoding.new 3 3 = .unknown := by decide
+
+/-! ## the value record as an element of the field DSL (Props/C04.lean, generated pairs of Gen/WriteProgs.lean)
+
+The translator gives a `ValueRecord` field / `Vec` of records that contain value records the writer item
+`WItem.arrayV [] 2` ("any number of 16-bit scalars") and the reader segments `[(popcnt 8 value_format, [2])]`
+(`ValueFormat::record_byte_len`).  These two theorems tie that reading to the hand model of this file. -/
+
+/-- **The hand-written `FontWrite for ValueRecord` is the DSL's element writer.**  For every owned record whose scalars
+fit 16 bits: writing the flat element `flat o` (the raw values of the slots the format contains, in source order) with
+the DSL's `arrayV [] 2` element writer produces exactly `ValueRecord.write o`. -/
+theorem value_record_is_arrayV_element (o : Owned) (h : WellSized o) :
+    emitRecsV [] 2 [flat o] = some (ValueRecord.write o) := by
+  have hs : ∀ e ∈ slots o, e.2 < 65536 := by
+    obtain ⟨h1, h2, h3, h4, h5, h6, h7, h8⟩ := h
+    intro e he
+    simp only [slots, List.mem_cons, List.mem_nil_iff, or_false] at he
+    rcases he with he | he | he | he | he | he | he | he <;> subst he
+    · exact getD_lt _ h1
+    · exact getD_lt _ h2
+    · exact getD_lt _ h3
+    · exact getD_lt _ h4
+    · exact devOff_lt _ h5
+    · exact devOff_lt _ h6
+    · exact devOff_lt _ h7
+    · exact devOff_lt _ h8
+  have := emitRec_slotVals (slots o) hs
+  simp only [emitRecsV, List.length_nil, Nat.zero_le, if_true, wWidths, List.nil_append, Nat.sub_zero]
+  simp only [flat, this, ValueRecord.write, List.append_nil]
+
+/-- **The element size the generated readers compute is the size the record has.**  The flat element has
+`popcount 8 (format o)` scalars — the `popcnt 8` segment of the reader layouts (`<ValueRecord as
+ComputeSize>::compute_size(&value_format)` = `count_ones * 2`) — so the hypothesis `Assume.elemLen` of the PairPos /
+SinglePos pairs says: every record was written with the table's value format. -/
+theorem value_record_flat_length (o : Owned) : (flat o).length = popcount 8 (format o) :=
+  flat_length o
+
+def exFlatRec : Owned :=
+  { explicitFormat := none, xPlacement := none, yPlacement := some 7, xAdvance := some 65535, yAdvance := none,
+    xPlaDev := some 40, yPlaDev := none, xAdvDev := none, yAdvDev := none }
+example : flat exFlatRec = [7, 65535, 40] := by decide
 
 end FontVerif.C04Hand
